@@ -375,10 +375,15 @@ func c05R3(p *core.Program, r *core.Report, e *engineFns) {
 	failed, retNil := false, false
 	for _, in := range tb.Instrs {
 		if ci, ok := in.(ssa.CallInstruction); ok {
+			// the fail-session closure (or a method it was turned into), which leaves the status failed on every path
+			var callee *ssa.Function
 			if mc, ok := ci.Common().Value.(*ssa.MakeClosure); ok {
-				if writesField(mc.Fn.(*ssa.Function), e.statusField) {
-					failed = true
-				}
+				callee, _ = mc.Fn.(*ssa.Function)
+			} else if f := ci.Common().StaticCallee(); f != nil && core.FuncPkgPath(f) == core.FuncPkgPath(e.tryResume) {
+				callee = f
+			}
+			if callee != nil && (writesField(callee, e.statusField) || settlesAlways(callee, e.statusField, nil, nil)) {
+				failed = true
 			}
 		}
 		if ret, ok := in.(*ssa.Return); ok && core.IsNilConst(errResult(ret)) {
